@@ -10,7 +10,7 @@ import astwire
 import implobs
 from gens.programs import Opts, Gen
 
-THEOREMS = []
+THEOREMS = ['while_correction_write_set', 'while_correction_spares_constants', 'loop_correction_write_set', 'fixpoint_diagonal_no_zero', 'rEx_wf', 'rEx_fixpoint', 'corrections_never_touch_shared_constants']
 RULE = ('a pool of generated functions and files of the repository corpus (c_files) is analysed (a) each alone in a '
         'fresh interpreter (reference), (b) in one process in random order, repeatedly and in different modes '
         '(function mode fin on/off, loop mode) interleaved, (c) as one of several functions of a file, (d) in fresh '
